@@ -793,6 +793,11 @@ class ForestScenario(explore.Scenario):
             v.append(("C04/%s:%s:%s" % (sig, tag,
                                         self.shape(w, before_model, op)),
                       "after %s: %s" % (op, detail)))
+        if exc is None and any(sig == "two-parents" for sig, _ in problems):
+            v.append(("C16/inserted-node-duplicated-not-moved:%s:%s"
+                      % (tag, self.shape(w, before_model, op)),
+                      "op %s: %s" % (op, [d for sg, d in problems
+                                          if sg == "two-parents"][0])))
         if problems and exc is not None:
             v.append(("C16/failed-operation-leaves-inconsistent-state:%s:%s"
                       % (tag, self.shape(w, before_model, op)),
@@ -1418,6 +1423,8 @@ def run(ctx, extra_cov=None):
     covs = []
     total_budget = ctx.budget
     plans = plan(ctx)
+    # cheapest explorations first, so that a loaded machine caps the big one
+    plans.sort(key=lambda p: {"forest-twins": 0, "forest-q2": 1}.get(p[0], 2))
     for i, (label, sc, max_depth) in enumerate(plans):
         cov = explore.explore(ctx, sc, max_depth=max_depth, label=label)
         covs.append(cov)
